@@ -21,6 +21,7 @@ class Report:
         self.obligations: list[dict[str, Any]] = []
         self.violations: list[dict[str, Any]] = []
         self.advisories: list[dict[str, Any]] = []
+        self.unknown: list[dict[str, Any]] = []
         self.analysed: dict[str, list[str]] = {}
         self.rules: dict[str, dict[str, Any]] = {}
         self.assumptions: list[str] = []
@@ -52,6 +53,18 @@ class Report:
     def violation(self, rid: str, construct: str, msg: str, loc: str = "", facts: Any = None) -> None:
         self._ob(rid, construct, False, msg)
         self.violations.append({"rule": rid, "construct": construct, "message": msg, "loc": loc, "facts": facts})
+
+    def unrecognised(self, rid: str, construct: str, msg: str, loc: str = "") -> None:
+        """The code has a shape the rule cannot decide (neither the confirmed idiom nor a construct it can name as violating): the run ends as
+        analysis-broken (exit 2) unless a violation was established elsewhere. Never a verdict."""
+        self.unknown.append({"rule": rid, "construct": construct, "message": msg, "loc": loc})
+
+    def check3(self, state: bool | None, rid: str, construct: str, msg: str, loc: str = "", unknown_msg: str = "", fact_ok: str = "") -> bool | None:
+        """Three-valued obligation: True holds, False is a violation, None means the shape was not recognised."""
+        if state is None:
+            self.unrecognised(rid, construct, unknown_msg or f"shape not recognised ({msg})", loc)
+            return None
+        return self.check(bool(state), rid, construct, msg, loc, fact_ok=fact_ok)
 
     def advisory(self, rid: str, construct: str, msg: str, loc: str = "") -> None:
         self.advisories.append({"rule": rid, "construct": construct, "message": msg, "loc": loc})
@@ -101,6 +114,10 @@ class Report:
                 print(f"  {v['loc']}: {self.prop}.{v['rule']} {v['construct']}: {v['message']}")
                 print(f"VIOLATION property={self.prop} replay={path}")
             rc = 1
+        if self.unknown and not new:
+            raise AnalysisError("; ".join(f"{self.prop}.{u['rule']} {u['construct']}: {u['message']} [{u['loc']}]" for u in self.unknown[:4]))
+        for u in self.unknown:
+            print(f"NOTE: {self.prop}.{u['rule']} {u['construct']}: not decided, {u['message']}")
         if short and not new:
             # nothing was violated but a rule found fewer instances than confirmed by hand: it would pass vacuously
             raise AnalysisError("; ".join(short) + ": the rule would pass vacuously")
